@@ -140,10 +140,13 @@ func Load(o LoadOpts) (*Program, error) {
 	}
 	p.fnByDecl = map[*ast.FuncDecl]*ssa.Function{}
 	for fn := range ssautil.AllFunctions(prog) {
-		if fn.Blocks == nil || fn.Synthetic != "" {
+		if fn.Blocks == nil || (fn.Synthetic != "" && !strings.HasPrefix(fn.Synthetic, "instance of")) {
 			continue
 		}
 		pk := fn.Pkg
+		if pk == nil && fn.Origin() != nil {
+			pk = fn.Origin().Pkg // an instantiation of a generic function: analysed like any other function of its package
+		}
 		if pk == nil && fn.Parent() != nil {
 			for q := fn; q != nil; q = q.Parent() {
 				if q.Pkg != nil {
@@ -245,12 +248,21 @@ func Load(o LoadOpts) (*Program, error) {
 			}
 		}
 	}
+	// a generic function is reachable when one of its instantiations is (rules over declarations look at the origin)
+	for f := range p.Reach {
+		if o := f.Origin(); o != nil && o != f {
+			p.Reach[o] = true
+		}
+	}
 	return p, nil
 }
 
 // IsRepo reports whether fn belongs to one of the four repository packages.
 func (p *Program) IsRepo(fn *ssa.Function) bool {
 	for q := fn; q != nil; q = q.Parent() {
+		if q.Pkg == nil && q.Origin() != nil && q.Origin() != q {
+			return p.IsRepo(q.Origin()) // an instantiation of a generic function of the repository
+		}
 		if q.Pkg != nil {
 			for _, pk := range p.Pkgs {
 				if p.SSAPkg[pk] == q.Pkg {
